@@ -8,7 +8,10 @@ import (
 )
 
 var vocab = []string{"alpha", "bravo", "charlie", "delta", "echo", "foxtrot", "golf", "hotel", "india", "juliet", "kilo", "lima",
-	"R&D", "a<b", "\"quoted\"", "café", "naïve", "漢字", "x|y", "tab\there"}
+	"R&D", "a<b", "\"quoted\"", "café", "naïve", "漢字", "x|y", "tab\there",
+	// letters whose upper or lower case has another length in UTF-8 (byte offsets computed on
+	// a case-folded copy do not fit the original)
+	"kırık ışık", "ſtraße", "ɐlpha ⱥ", "İstanbul"}
 
 func xmlEsc(s string) string {
 	r := strings.NewReplacer("&", "&amp;", "<", "&lt;", ">", "&gt;", "\"", "&quot;")
